@@ -4,7 +4,7 @@
    texts recorded by shape_Registers_*, shape_Machine_switch_unit_mode,
    shape_convert_units_fn_lookup in Gen/MachineUnitsGen.v.  No proofs here. *)
 From Coq Require Import ZArith QArith Bool List PrimFloat.
-From Bardolph Require Import Base.PyNum Gen.ParamGen Gen.ColorsysGen Gen.UnitsGen Gen.MachineUnitsGen Num.UnitsFloat.
+From Bardolph Require Import Base.PyNum Num.UnitsQ Gen.ParamGen Gen.ColorsysGen Gen.UnitsGen Gen.MachineUnitsGen Num.UnitsFloat.
 Import ListNotations.
 Close Scope Q_scope.
 Open Scope Z_scope.
@@ -19,9 +19,8 @@ Arguments r_hue {T}. Arguments r_saturation {T}. Arguments r_brightness {T}. Arg
 Arguments r_red {T}. Arguments r_green {T}. Arguments r_blue {T}.
 Arguments r_duration {T}. Arguments r_time {T}. Arguments r_mode {T}.
 
-(* the settings of the documentation's table *)
-Inductive setting : Set := S_time | S_duration | S_hue | S_saturation | S_brightness
-                         | S_red | S_green | S_blue | S_kelvin.
+Definition to_smode (m : unit_mode) : smode :=
+  match m with LOGICAL => SLogical | RAW => SRaw | RGB => SRgb end.
 
 Definition get_setting {T} (s : setting) (r : regs T) : T :=
   match s with
@@ -30,17 +29,9 @@ Definition get_setting {T} (s : setting) (r : regs T) : T :=
   | S_red => r_red r | S_green => r_green r | S_blue => r_blue r | S_kelvin => r_kelvin r
   end.
 
-(* "Changed When Switching Units Mode" (docs/language.rst), plus kelvin never *)
+(* the documentation's table (Num/UnitsQ.doc_rewritten) on the generated mode type *)
 Definition documented_rewrite (from to : unit_mode) (s : setting) : bool :=
-  match from, to, s with
-  | LOGICAL, RAW, (S_time | S_duration | S_hue | S_saturation | S_brightness) => true
-  | RAW, LOGICAL, (S_time | S_duration | S_hue | S_saturation | S_brightness) => true
-  | RGB, RAW, (S_time | S_duration | S_hue | S_saturation | S_brightness) => true
-  | RAW, RGB, (S_time | S_duration | S_red | S_green | S_blue) => true
-  | RGB, LOGICAL, (S_hue | S_saturation | S_brightness) => true
-  | LOGICAL, RGB, (S_red | S_green | S_blue) => true
-  | _, _, _ => false
-  end.
+  doc_rewritten (to_smode from) (to_smode to) s.
 
 (* which settings the implementation assigns (kelvin is assigned too -- with the value the
    converter returns for it -- so that it is "not altered" only if that value is the old one) *)
